@@ -164,7 +164,7 @@ def h_value(value: bytes, c1: int) -> int:
 
 # ---------------------------------------------------------------------------------------------- keys
 
-KEYS = ["plain", b"bytes-key", "kéy", "x" * 250, b"\x01\x7f\xff", "a", b"a"]
+KEYS = ["plain", "p:plain", "kéy", "x" * 250, b"\x01\x7f\xff", "a", b"a"]   # "p:plain" starts with the key prefix b"p:"
 KINDS = ("list", "tuple", "set", "dictview", "iterator", "generator")
 
 
@@ -338,7 +338,7 @@ def shards(tier):
     fetches = ("get", "gets", "get_many", "gets_many", "gat", "gats")
     if thorough:
         combos = [(s, f) for s in stores for f in fetches]
-        vls = (0, 1, 2, 3, 4, 5, 6, 8)
+        vls = (0, 1, 3, 4, 6, 8)
     else:
         combos = [("set", "get"), ("set_many", "get_many"), ("cas", "gets"), ("add", "gat"), ("replace", "gets_many"),
                   ("set", "gats")]
@@ -348,6 +348,8 @@ def shards(tier):
             if not thorough and (s, f) != ("set", "get") and vl not in (2, 3):
                 continue
             multi = f in ("get_many", "gets_many")
+            if thorough and (s, f) not in (("set", "get"), ("set_many", "get_many"), ("cas", "gets")) and vl not in (3, 6):
+                continue
             for recv in (4096, 4):
                 if recv == 4 and not thorough and not ((s, f) == ("set", "get") or vl == 3):
                     continue
